@@ -186,3 +186,88 @@ def shares(a, b):
             if u.size and v.size and np.shares_memory(u, v):
                 return True
     return False
+
+
+# ----------------------------------------------------------------------------- repeated objects / repeated calls
+
+def alias_groups(n, r):
+    """Groups (lists of positions, each of length >= 2) of cores of a TT-tensor with mode sizes n and ranks r (list of
+    length d+1) that have the same shape - the positions at which ONE array object can stand several times."""
+    d = len(n)
+    by = {}
+    for k in range(d):
+        by.setdefault((int(r[k]), int(n[k]), int(r[k + 1])), []).append(k)
+    return [g for g in by.values() if len(g) >= 2]
+
+
+def tt_aliased(n, r, seed, kind='int', scale=1.0, order='C', which='all'):
+    """Like tt(), but the list of cores holds the SAME array object at several positions (a well-formed TT-tensor all
+    the same: e.g. the symmetric rank-1 tensor [g, g, g, g], or [A, G, G, G, B]).  which: 'all' - every group of
+    equal-shaped cores is one object; 'first' - only the positions that can share the object of core 0 do; 'rest' -
+    every group except the one of core 0.  Without two cores of equal shape the result is a plain tt()."""
+    d = len(n)
+    if isinstance(r, int):
+        r = [1] + [r] * (d - 1) + [1]
+    Y = tt(n, r, seed, kind, scale=scale, order=order)
+    for grp in alias_groups(n, r):
+        if (which == 'first' and grp[0] != 0) or (which == 'rest' and grp[0] == 0):
+            continue
+        for k in grp[1:]:
+            Y[k] = Y[grp[0]]
+    return Y
+
+
+def alias_rank_profiles(n, rmax=3):
+    """Rank profiles for the mode sizes n under which at least two cores have the same shape (rank 1 everywhere, a
+    uniform inner rank, alternating 1 / rmax-1 bonds, a rank-1 bond in the middle)."""
+    d = len(n)
+    cand = [[1] * (d + 1), [1] + [2] * (d - 1) + [1], [1] + [rmax] * (d - 1) + [1],
+            [1] + [(2 if k % 2 else 1) for k in range(1, d)] + [1], [1] + [(1 if k % 2 else 2) for k in range(1, d)] + [1],
+            [1] + [(1 if k == d // 2 else 2) for k in range(1, d)] + [1]]
+    out = []
+    for p in cand:
+        if p not in out and alias_groups(n, p):
+            out.append(p)
+    return out
+
+
+def fresh(x):
+    """Deep copy of an argument structure (arrays, nested lists / tuples / dicts of them, scalars): equal values, dtypes
+    and memory layout, but NEW objects throughout - the reference twin of arguments that are going to be reused."""
+    if isinstance(x, np.ndarray):
+        y = np.empty_like(x)              # keeps dtype and (C / F) layout
+        y[...] = x
+        return y
+    if isinstance(x, list):
+        return [fresh(e) for e in x]
+    if isinstance(x, tuple):
+        return tuple(fresh(e) for e in x)
+    if isinstance(x, dict):
+        return {k: fresh(v) for k, v in x.items()}
+    return x
+
+
+def repeat_calls(fn, args, kwargs=None, times=3, what=''):
+    """Call fn(*args, **kwargs) `times` times WITH THE SAME ARGUMENT OBJECTS and compare with one call on fresh twins of
+    the arguments (made before anything ran).  Returns (reference result, message); message is None if every call left
+    every argument bit-identical, returned the bit-identical answer of the reference call, and no earlier result was
+    changed by a later call; otherwise it names the first deviation.  fn must be deterministic."""
+    kwargs = kwargs or {}
+    ref = fn(*fresh(list(args)), **fresh(kwargs))
+    sref = snapshot(ref) if not callable(ref) else None
+    before = snapshot([list(args), kwargs])
+    kept = []
+    for j in range(times):
+        out = fn(*args, **kwargs)
+        if snapshot([list(args), kwargs]) != before:
+            now = snapshot([list(args), kwargs])
+            bad = [i for i, (u, v) in enumerate(zip(before[2][0][2], now[2][0][2])) if u != v]
+            return ref, f'{what}: call #{j + 1} changed its argument(s) {bad if bad else "(keyword)"}'
+        if sref is not None and snapshot(out) != sref:
+            return ref, (f'{what}: call #{j + 1} with the same argument objects returned {out!r}, a call with equal '
+                         f'fresh arguments returned {ref!r}')
+        kept.append((out, snapshot(out) if not callable(out) else None))
+        for i, (o, s) in enumerate(kept[:-1]):
+            if s is not None and snapshot(o) != s:
+                return ref, f'{what}: the result of call #{i + 1} was changed by call #{j + 1}'
+    return ref, None
